@@ -80,8 +80,12 @@ theorem manhattan_src (x y : List α) (h : x.length = y.length) :
     Src.manhattan x y = Metrics.manhattan x y := by
   unfold Src.manhattan Metrics.manhattan Metrics.diffs
   simp only []
-  rw [foldl_range_getD₂ x y 0 0 h (fun st a b => st + absV (a - b))]
-  simp [sumL, List.foldl_map]
+  -- model side into index-loop form, then the loop bodies are compared (follows body-level rewrites of the source)
+  have hm : sumL (((x.zip y).map (fun p => p.1 - p.2)).map absV)
+      = (List.range x.length).foldl (fun st i => st + absV (x.getD i 0 - y.getD i 0)) 0 := by
+    rw [foldl_range_getD₂ x y 0 0 h (fun st a b => st + absV (a - b))]
+    simp [sumL, List.foldl_map]
+  rw [hm] <;> (apply List.foldl_ext; intro st i _; simp)
 
 theorem chebyshev_src (x y : List α) (h : x.length = y.length) :
     Src.chebyshev x y = Metrics.chebyshev x y := by
